@@ -179,6 +179,7 @@ class CloseCtx(object):
         self.viol = None
         self.cnt = {}
         self.real = None
+        self.marked = {}     # name -> date on which it entered perm['closed'] / perm['rolled']
 
     def __deepcopy__(self, memo):
         return self
@@ -206,6 +207,8 @@ class Wrapped(bt.Algo):
             return r
         key = "closed" if self.kind == "close" else "rolled"
         done = target.perm.get(key, set())
+        for nme in done:
+            ctx.marked.setdefault(nme, now)
         tab = self.table
         trades = {}
         for e in ins.EV[mark:]:
@@ -296,7 +299,12 @@ def case_close_roll(cs, which):
     always = rng.random() < 0.5
     weigh = algos.WeighEqually() if rng.random() < 0.7 else algos.WeighRandomly()
     fi = rng.random() < 0.4
-    body = [algos.SelectAll(), algos.SelectActive(), ActiveSpy(ctx), weigh]
+    if rng.random() < 0.5:
+        sigf = pd.DataFrame(rs.rand(nd, n) > 0.45, index=dts, columns=names)
+        extra["sigf"] = sigf
+        body = [algos.SelectWhere("sigf"), algos.SelectActive(), ActiveSpy(ctx), weigh]
+    else:
+        body = [algos.SelectAll(), algos.SelectActive(), ActiveSpy(ctx), weigh]
     if always:
         first.run_always = True
         head = [sch, first]
@@ -307,7 +315,8 @@ def case_close_roll(cs, which):
         s = FixedIncomeStrategy("s", head + body + [algos.SetNotional("nv"), algos.Rebalance()], children=kids)
         extra["nv"] = pd.Series(1e5, index=dts)
     else:
-        s = Strategy("s", head + body + [algos.Rebalance()], children=(names if rng.random() < 0.5 else None))
+        kidmode = rng.choice(["lazy", "none", "eager", "eager"])
+        s = Strategy("s", head + body + [algos.Rebalance()], children={"lazy": list(names), "none": None, "eager": [Security(nm) for nm in names]}[kidmode])
     t = bt.Backtest(s, data, integer_positions=False, additional_data=extra)
     sig = [which, always, fi, len(tab), type(sch).__name__]
     random.seed(cs)
@@ -326,15 +335,13 @@ def case_close_roll(cs, which):
     key = "closed" if which == "close" else "rolled"
     done = t.strategy.perm.get(key, set())
     for nm in done:
-        if nm in P.columns:
-            col = P[nm].to_numpy()
-            nz = np.nonzero(np.abs(col) > 1e-12)[0]
-            d = tab.loc[nm, "date"]
-            after = [i for i in nz if P.index[i] >= d]
-            # after the first zero on or after the date, never non-zero again
-            zeros = [i for i in range(len(col)) if P.index[i] >= d and abs(col[i]) <= 1e-12]
-            if zeros and after and max(after) > zeros[0] and not (which == "roll" and nm in list(tab["target"])):
-                return common.result(common.VIOL, sig=sig, nt=True, cnt=ctx.cnt, mech="c20_reopened", witness=dict(w, security=nm, date=str(P.index[max(after)])))
+        if nm in P.columns and nm in ctx.marked:
+            since = ctx.marked[nm]
+            col = P[nm]
+            late = col[(col.index >= since) & (col.abs() > 1e-12)]
+            if len(late) and not (which == "roll" and nm in list(tab["target"])):
+                return common.result(common.VIOL, sig=sig, nt=True, cnt=ctx.cnt, mech="c20_reopened",
+                                     witness=dict(w, security=nm, marked_on=str(since), position_on=str(late.index[0]), position=float(late.iloc[0])))
     nt = ctx.cnt.get("closes_done", 0) + ctx.cnt.get("rolls_done", 0) > 0
     return common.result(common.HELD, sig=sig, nt=nt, cnt=ctx.cnt, sample=w)
 
